@@ -116,7 +116,8 @@ void harness(void) {
         /* the root (message) is not a field: whatever repetition a writer states for it (absent, REQUIRED; parquet-mr's MessageType is
            REPEATED, older writers emit that or OPTIONAL) it contributes to no column's levels */
         if (VS_N > 1 && VS_N < 6) {
-            int rr = symx_choice(4, "root repetition");
+            /* all four labels up to 4 nodes; with 5 nodes absent / REQUIRED only (the 5-node families are the longest obligations) */
+            int rr = symx_choice(VS_N <= 4 ? 4 : 2, "root repetition");
             if (rr) { root->present |= REF_BIT(REF_SE_REPETITION_TYPE); root->repetition_type = rr == 1 ? REF_REP_REQUIRED : rr == 2 ? REF_REP_OPTIONAL : REF_REP_REPEATED; }
         }
     }
